@@ -1303,6 +1303,12 @@ func (pc *PartitionContext) UpdateAllocation(alloc *objects.Allocation) (request
 			zap.String("appID", applicationID),
 			zap.String("allocationKey", allocationKey))
 
+		// the ask could have been reserved by the scheduler: an allocated ask cannot hold a reservation
+		if reservedNodeID := app.NodeReservedForAsk(allocationKey); reservedNodeID != "" {
+			if reservedNode := pc.GetNode(reservedNodeID); reservedNode != nil {
+				pc.unReserve(app, reservedNode, existing)
+			}
+		}
 		existing.SetNodeID(nodeID)
 		existing.SetBindTime(alloc.GetBindTime())
 		if _, err := app.AllocateAsk(allocationKey); err != nil {
